@@ -64,7 +64,7 @@ structure Task where
 /-- `WorkerAssignment` -/
 inductive Assign where
   | sn (assigned : List TaskId) (free : List Nat) (prefilled : List TaskId)
-  | mn (task : TaskId) (root : Bool)
+  | mn (task : TaskId) (root : Bool) (started : Bool)
   deriving Repr, Inhabited
 
 structure Worker where
@@ -218,7 +218,7 @@ def Worker.insertSn (w : Worker) (t : TaskId) (r : Rq) : M Worker :=
     | .ok free' =>
       if assigned.contains t then .error (.panic "insert_sn_task.assert") else
       .ok { w with assign := .sn (assigned ++ [t]) free' pre }
-  | .mn _ _ => .error (.panic "insert_sn_task.unreachable")
+  | .mn _ _ _ => .error (.panic "insert_sn_task.unreachable")
 
 /-- `Worker::remove_sn_task` -/
 def Worker.removeSn (w : Worker) (t : TaskId) (r : Rq) : M Worker :=
@@ -228,21 +228,21 @@ def Worker.removeSn (w : Worker) (t : TaskId) (r : Rq) : M Worker :=
     match freeAdd free w.total r.entries with
     | .error e => .error e
     | .ok free' => .ok { w with assign := .sn (assigned.erase t) free' pre }
-  | .mn _ _ => .error (.panic "remove_sn_task.unreachable")
+  | .mn _ _ _ => .error (.panic "remove_sn_task.unreachable")
 
 def Worker.insertPrefill (w : Worker) (t : TaskId) : M Worker :=
   match w.assign with
   | .sn assigned free pre =>
     if pre.contains t then .error (.panic "insert_prefill_task.assert") else
     .ok { w with assign := .sn assigned free (pre ++ [t]) }
-  | .mn _ _ => .error (.panic "insert_prefill_task.unreachable")
+  | .mn _ _ _ => .error (.panic "insert_prefill_task.unreachable")
 
 def Worker.removePrefill (w : Worker) (t : TaskId) : M Worker :=
   match w.assign with
   | .sn assigned free pre =>
     if !pre.contains t then .error (.panic "remove_prefill_task.assert") else
     .ok { w with assign := .sn assigned free (pre.erase t) }
-  | .mn _ _ => .error (.panic "remove_prefill_task.unreachable")
+  | .mn _ _ _ => .error (.panic "remove_prefill_task.unreachable")
 
 /-- `Worker::task_from_prefilled_to_started` -/
 def Worker.prefilledToStarted (w : Worker) (t : TaskId) (r : Rq) : M Worker :=
@@ -253,18 +253,18 @@ def Worker.prefilledToStarted (w : Worker) (t : TaskId) (r : Rq) : M Worker :=
     match freeRemove free r.entries with
     | .error e => .error e
     | .ok free' => .ok { w with assign := .sn (assigned ++ [t]) free' (pre.erase t) }
-  | .mn _ _ => .error (.panic "task_from_prefilled_to_started.unreachable")
+  | .mn _ _ _ => .error (.panic "task_from_prefilled_to_started.unreachable")
 
 def Worker.isFree (w : Worker) : Bool :=
   (match w.assign with
-   | .sn assigned _ _ => assigned.isEmpty
-   | .mn _ _ => false) && !w.stopping
+   | .sn assigned _ pre => assigned.isEmpty && pre.isEmpty
+   | .mn _ _ _ => false) && !w.stopping
 
 def Worker.emptySn (w : Worker) : Worker := { w with assign := .sn [] w.total [] }
 
 /-- `Worker::set_mn_task` -/
 def Worker.setMn (w : Worker) (t : TaskId) (root : Bool) : M Worker :=
-  if !w.isFree then .error (.panic "set_mn_task.assert") else .ok { w with assign := .mn t root }
+  if !w.isFree then .error (.panic "set_mn_task.assert") else .ok { w with assign := .mn t root false }
 
 /-- state-level wrappers -/
 def State.withWorker (s : State) (id : Nat) (f : Worker → M Worker) : M State :=
